@@ -121,3 +121,23 @@ package protocol
 //@   requires chunkIndex >= 0 && chunkIndex <= 1073741824
 //@   requires (0 <= rotation && rotation <= 15) || (16 <= rotation && rotation <= 240 && rotation % 16 == 0)
 //@   ensures r == rotMaskS(initialMask, int32(rotation), chunkIndex)
+//@
+//@ // Decoder (docs/protocol.md, "Low Entropy Payload Encoding"): success means the
+//@ // parameters are valid, the length is ceil(N/C)*8, every non-data position of
+//@ // every chunk has the polarity of chunk 0 (canonical form). (The byte-level
+//@ // extraction equation out[i*C+k] == byte of PEXT(chunk_i, mask_i) is not claimed yet.)
+//@ func decodeLowEntropyPayload(encoded []byte, extractedPayloadLen int, mode appctlpb.LowEntropyMode, halfMask uint32, rotation appctlpb.LowEntropyMaskRotation) (out []byte, err error)
+//@   property C17 C04
+//@   mode int
+//@   requires extractedPayloadLen <= 1073741824
+//@   ensures err == nil ==> 1 <= mode && mode <= 4 && popcount32(halfMask) == 4 * (int(mode) + 3) && leRotOK(uint8(rotation)) && 0 <= rotation && rotation <= 240
+//@   ensures err == nil ==> extractedPayloadLen > 0 && len(out) == extractedPayloadLen && len(encoded) == leEncLen(extractedPayloadLen, uint8(mode))
+//@   ensures err == nil ==> forall(i, 0, len(encoded) / 8, lePad(encoded, halfMask, int32(rotation), i, extractedPayloadLen, int(mode) + 3) == ite(lePad(encoded, halfMask, int32(rotation), 0, extractedPayloadLen, int(mode) + 3) == 0, 0, ^leDataMask(halfMask, int32(rotation), i, extractedPayloadLen, int(mode) + 3)))
+//@   loop 1:
+//@     modifies decoded[..]
+//@     invariant 0 <= chunkIndex && dstOffset == chunkIndex * params.sourceBytesPerChunk && chunkIndex <= len(encoded) / 8
+//@     invariant params.sourceBytesPerChunk == int(mode) + 3 && 1 <= mode && mode <= 4 && initialMask == repeat32(halfMask) && len(decoded) == extractedPayloadLen && extractedPayloadLen > 0
+//@     invariant len(encoded) == leEncLen(extractedPayloadLen, uint8(mode)) && 0 <= rotation && rotation <= 240 && leRotOK(uint8(rotation))
+//@     invariant dstOffset >= extractedPayloadLen ==> chunkIndex == len(encoded) / 8
+//@     invariant chunkIndex > 0 ==> (paddingBit == 0 && lePad(encoded, halfMask, int32(rotation), 0, extractedPayloadLen, int(mode) + 3) == 0) || (paddingBit == 1 && lePad(encoded, halfMask, int32(rotation), 0, extractedPayloadLen, int(mode) + 3) != 0)
+//@     invariant forall(i, 0, chunkIndex, lePad(encoded, halfMask, int32(rotation), i, extractedPayloadLen, int(mode) + 3) == ite(lePad(encoded, halfMask, int32(rotation), 0, extractedPayloadLen, int(mode) + 3) == 0, 0, ^leDataMask(halfMask, int32(rotation), i, extractedPayloadLen, int(mode) + 3)))
